@@ -5,7 +5,7 @@ PROP = "C19"
 
 
 def seq():
-    return build.harness("arraymodel", "asan", ["arraymodel.c", "vp.c"], wraps=["random", "srand"])
+    return build.harness("arraymodel", "asan", ["arraymodel.c", "vp.c"], wraps=["random", "srand", "malloc", "calloc", "realloc"])
 
 
 def mt_asan():
@@ -13,7 +13,7 @@ def mt_asan():
 
 
 def mt_tsan():
-    return build.harness("arraymodel", "tsan", ["arraymodel.c", "vp.c", "tsanvol_plain.c"], wraps=["random", "srand"])
+    return build.harness("arraymodel", "tsan", ["arraymodel.c", "vp.c", "tsanvol_plain.c"], wraps=["random", "srand", "malloc", "calloc", "realloc"])
 
 
 STAGE_LIST = [
